@@ -97,7 +97,7 @@ class Check(BaseCheck):
                 for k in ks:
                     if 1 <= k < n:
                         yield dict(kind=kind, v=c["v"], t=c["t"], k=int(k), lump=bool(rng.random() < 0.5), name=c["name"],
-                                   dt="f32" if rng.random() < 0.2 else "f64", pre=[None, None, "poisson", "poisson-d", "eigs"][int(rng.integers(0, 5))])
+                                   dt="f32" if rng.random() < 0.2 else "f64", pres=c.get("pres"), vdtype=c.get("vdtype"), pre=[None, None, "poisson", "poisson-d", "eigs"][int(rng.integers(0, 5))])
 
     def correspond(self, drv, stats):
         fails = []
@@ -106,6 +106,7 @@ class Check(BaseCheck):
         n_tri, n_tet = (12, 4) if self.quick else (150, 40)
         for case in self.problems(self.seed, n_tri, n_tet):
             v, t, k = case["v"], case["t"], case["k"]
+            gen.use(case)
             dt = np.float32 if case["dt"] == "f32" else np.float64
             stats.case(core.mesh_key(v, t, k, case["lump"], case["dt"]), cls=[case["kind"] + ":" + case["name"], "lump:%s" % case["lump"], "dtype:" + case["dt"], "solver-used-before:%s" % case.get("pre")],
                        sample=dict(kind=case["kind"], name=case["name"], n=len(v), k=k, lump=case["lump"]))
